@@ -503,6 +503,7 @@ def sampled(res, st, std_coq, extra_vo=()):
     if have and pid == "C16":
         respell_fragment(res, rnd, q)
         type_correspondence(res, rnd, q)
+        respell_statements(res, rnd, q)
     if have and pid == "C10":
         recovery_correspondence(res, cases)
         type_recover_correspondence(res, rnd, q)
@@ -834,6 +835,66 @@ def respell_fragment(res, rnd, q):
                    not bad and not lexerr, str(bad[:2]))
     res.extra["respell_fragment"] = {"inputs": len(xs), "accepted_pairs": len(pairs), "verdicts": dict(cnt)}
     res.add_cases(len(pairs), len(set(p[1] for p in pairs)), [])
+
+
+@_needs_driver()
+def respell_statements(res, rnd, q):
+    """C16 on the statement family: every valid form and a sample of damaged ones, re-spelled (letter case of every keyword / pseudo keyword;
+    white space and comments between all tokens): (1) the hypothesis of the theorems (same_stmt_tokensb, decidable) holds between the real
+    lexer's token lists of the input and of the re-spelling, (2) the model the theorems are about is ParseStatement on the re-spellings as
+    well, (3) ParseStatement returns the same dump up to position values on both"""
+    import re
+    single, _ = gens.stmt_family_cases(rnd, True)
+    base = [v.encode() for v in gens.STMT_VALID] + rnd.sample(single, min(len(single), 1500 if q else 20000))
+    flips = [lambda w: w.lower(), lambda w: w.capitalize(), lambda w: w[:1].lower() + w[1:], lambda w: w.upper()]
+    seps = [b"  ", b"\n", b"\t", b" /*c*/ ", b" -- x\n", b"\x0c", b" # y\n "]
+    pairs = []
+    for n, x in enumerate(base):
+        if re.search(rb"`[^`]* [^`]*`", x) or x.count(b"`") % 2:
+            continue          # a blank inside a quoted identifier is part of the name, not a separator
+        ws = x.split(b" ")
+        for k in range(2):
+            f = flips[(n + k) % len(flips)]
+            sp = seps[(n + 3 * k) % len(seps)]
+            y = sp.join((f(w) if w.isalpha() and w.isupper() else w) for w in ws)
+            pairs.append((x, y))
+    allstr = sorted(set([a for a, _ in pairs] + [b for _, b in pairs]))
+    inp = "\n".join(hexs(s_) for s_ in allstr) + "\n"
+    toks = dict(zip(allstr, [l.split(" => ", 1)[1] for l in vlib.run_lines(vlib.HARNESS, ["expr-toks"], inp)]))
+    go = dict(zip(allstr, [l.split(" => ", 1)[1] for l in vlib.run_lines(vlib.HARNESS, ["stmt-go", "ParseStatement"], inp)]))
+    md = dict(zip(allstr, [l.split(" => ", 1)[1] for l in vlib.run_lines(vlib.DRIVER, ["stmt-model", "ParseStatement"], "\n".join(hexs(s_) + " => " + toks[s_] for s_ in allstr) + "\n")]))
+    usable = [(a, b) for (a, b) in pairs if toks[a] != "LEXERR" and toks[b] != "LEXERR"]
+    verdicts = vlib.run_lines(vlib.DRIVER, ["stmt-sim"], "\n".join(toks[a] + " | " + toks[b] for a, b in usable) + "\n")
+    up = lambda m: " " + bytes.fromhex(m.group(1)).upper().hex()
+    # positions erased; identifier values and token texts compared up to letter case (a pseudo keyword may stand in a name position)
+    nopos = lambda d: re.sub(r"\bS((?:[0-9a-f]{2})+)\b", lambda m: "S" + bytes.fromhex(m.group(1)).upper().hex(),
+                             re.sub(r" ((?:[0-9a-f]{2})+)(?= )", up, re.sub(r"P-?\d+", "P", re.sub(r" B[01]\)", ")", d))))
+    bad_h, bad_go, bad_model, infam = [], [], [], 0
+    for (a, b), v in zip(usable, verdicts):
+        if v != "SAME":
+            bad_h.append((a, b, v))
+        if nopos(go[a]) != nopos(go[b]):
+            bad_go.append((a, b))
+        for s_ in (a, b):
+            if md[s_] not in ("UNSUP", "LEXERR"):
+                infam += 1
+                if re.sub(r" B[01]\)", ")", go[s_]).rstrip() != md[s_].rstrip():
+                    bad_model.append(s_)
+    for (a, b, v) in bad_h[:3]:
+        res.violation("re-spelling trivia / keyword case changes the token kinds or values seen by the statement parser",
+                      {"kind": "c16-stmt-tokens", "entry": "ParseStatement", "input_hex": hexs(a), "respelled_hex": hexs(b), "verdict": v})
+    for (a, b) in bad_go[:3]:
+        res.violation("ParseStatement returns different trees (up to positions and letter case) for a statement and its re-spelling",
+                      {"kind": "c16-stmt-go", "entry": "ParseStatement", "input_hex": hexs(a), "respelled_hex": hexs(b), "go": go[a][:300], "go_respelled": go[b][:300]})
+    for s_ in bad_model[:3]:
+        res.violation("ParseStatement and the model of the statement family disagree on a re-spelled statement",
+                      {"kind": "stmt-family", "entry": "ParseStatement", "input_hex": hexs(s_), "go": go[s_][:300], "model": md[s_][:300]})
+    res.obligation("hypothesis of the C16 statement theorems (same_stmt_tokensb) holds on %d (statement, re-spelling) pairs from the real lexer; "
+                   "the model is ParseStatement on both sides (%d comparisons)" % (len(usable), infam),
+                   not bad_h and not bad_model and len(usable) > 500, str(bad_h[:2]) + str(bad_model[:2]))
+    res.extra["respell_statements"] = {"pairs": len(pairs), "usable": len(usable), "in_family_comparisons": infam, "hypothesis_failures": len(bad_h),
+                                       "go_differs": len(bad_go), "model_differs": len(bad_model)}
+    res.add_cases(len(pairs), len(set(b for _, b in pairs)), [])
 
 
 def frag_inputs(rnd, q):
